@@ -516,6 +516,18 @@ def main():
                 st, detail = "undecided", str(e)
             rec = {"id": oid, "kind": "config", "source": co["file"], "backend": "token scan of one function body", "status": {"ok": "discharged", "violation": "FAILED", "undecided": "undecided"}[st], "detail": detail, "solver_ms": 0, "rlimit": None}
             fn_records.append(rec)
+            if co.get("known"):
+                # an obligation stated from the property that is recorded as an open finding: it fails as recorded
+                obligations.pop()
+                kf = [k for k in known["findings"] if k.get("id") == co["known"] and k.get("property") == prop and k.get("status") == "open"]
+                if st == "violation" and kf:
+                    known_lines.append(f"KNOWN-FINDING: property={prop} {co['known']} {kf[0]['witness']}")
+                    rec["status"] = "known-finding (fails as recorded)"
+                    continue
+                if st == "ok":
+                    rec["status"] = "known-finding obligation holds (finding no longer reproduces)"
+                    continue
+                obligations.append(oid)
             if st == "ok":
                 discharged.append(oid)
             elif st == "violation":
